@@ -36,7 +36,7 @@ def required(tier):
          'directio:on': 20, 'directio:off': 20, 'digitize:on': 30, 'digitize:off': 20, 'multi-file-input': 20, 'length:omitted': 10,
          'length:shorter': 10, 'length:longer': 10, 'aligned-header': 3, 'subblocks>=2': 40,
          'second-recording-flipped-digitize': 30, 'lazy-unit-noise-estimate': 40, 'input:blank-block-or-dead-polarisation': 8,
-         'block>10000-samples-per-stream': 15, 'unused-digitiser-with-other-statistics-settings': 15, 'window:hann': 30, 'window:blackman': 30, 'window:boxcar': 30}
+         'block>10000-samples-per-stream': 15, 'unused-digitiser-with-other-statistics-settings': 15, 'retry-after-interrupted-recording': 20, 'window:hann': 30, 'window:blackman': 30, 'window:boxcar': 30}
     return {'buckets': b, 'counters': {'decode_blocks_compared': 200, 'gain_calls_observed': 400, 'samples_compared': 50000},
             'checks': 1000, 'nontrivial': 60}
 
@@ -378,6 +378,31 @@ def _run(stg, c, cfg, d, R):
         return True
 
 
+    if c['_idx'] % 5 == 3 and len(in_blocks) >= 2:
+        # history: an earlier recording on this backend was INTERRUPTED part-way (an exception out of the second block); the caller
+        # catches it and records again -- from the first input block, like any recording
+        R.bucket('retry-after-interrupted-recording')
+
+        class _Interrupt(Exception):
+            pass
+        calls_ = [0]
+
+        def pre_fail(args, kwargs):
+            calls_[0] += 1
+            if calls_[0] == 2:
+                raise _Interrupt()
+        attach.wrap(v.RawVoltageBackend, 'collect_data_block', pre=pre_fail)
+        try:
+            with common.quiet():
+                rvb.record(os.path.join(d, 'aborted'), header_dict={}, digitize=cfg['digitize'], load_template=False, verbose=False)
+            R.count('interruption_did_not_fire')
+        except _Interrupt:
+            R.count('interrupted_recordings')
+        finally:
+            attach.restore_all()
+        for f_ in os.listdir(d):
+            if f_.startswith('aborted.'):
+                os.remove(os.path.join(d, f_))
     ok = one_recording(cfg['digitize'], 'out', 'first')
     if c['_idx'] % 3 == 0:
         # history: a second recording on the SAME backend with the digitiser flag flipped (the synthetic gain must follow the flag)
